@@ -4,5 +4,8 @@ from props import records
 
 def run(ses):
     records.check_unit(ses, "volume", ["table", "frame"])
+    from props import analyses
+
+    analyses.bounded_tables(ses, ('volume',), 12 if ses.tier == "quick" else 300)
     ses.trust("pyvc engine; z3/cvc5", "construct combinators and atomic codecs as modelled in pyvc.layout (T3)",
               "specification table spec/tables/volume.json (authored from the pinned layout; anchors checked)")
